@@ -69,7 +69,7 @@ def printer_rules(ctx):
         arm, case = table[v][0]
         bf = bound_fields(case)
         names = [b for b in bf.values() if b]
-        ev = pt.arm_events(arm["body"], names)
+        ev = pt.arm_events(arm["body"], names, variant=v)
         # children printed
         printed = set(e[1] for e in ev if e[0] == "child")
         missing = []
@@ -253,12 +253,19 @@ def escape_rules(ctx):
     q = [f for f in tc.fns if f.name == "write_str_name_quoted" and f.body]
     okq = False
     if len(q) == 1:
-        # the text handed to write_token is a local whose initialiser IS the escaper call (no unescaped alternative)
+        # every non-constant text handed to write_token/write_str is a local whose initialiser IS the escaper call
+        consts = set(it["item"].get("name") for it in sir.walk(q[0].body) if it.get("k") == "item" and it["item"].get("k") in ("const", "static"))
+        consts |= set(name for (_m, name) in tc.consts)
+        sinks = []
         for n in sir.walk(q[0].body):
             if n.get("k") == "mcall" and n["m"] in ("write_token", "write_str") and n["args"] and sir.strip_ref(n["args"][0]).get("k") != "lit":
-                nm = sir.root_expr_name(sir.strip_ref(n["args"][0]))
+                a0 = sir.strip_ref(n["args"][0])
+                if a0.get("k") == "path" and a0["segs"][-1] in consts:
+                    continue
+                nm = sir.root_expr_name(a0)
                 ini = [m.get("init") for m in sir.walk(q[0].body) if m.get("k") == "local" and m["pat"].get("name") == nm]
-                okq = bool(ini) and ini[0] is not None and ini[0].get("k") == "call" and (sir.call_name(ini[0]) or "").endswith("escape_html_quote")
+                sinks.append(bool(ini) and ini[0] is not None and ini[0].get("k") == "call" and (sir.call_name(ini[0]) or "").endswith("escape_html_quote"))
+        okq = bool(sinks) and all(sinks)
     obs.append(ob("C14.escape/sinks/quoted", okq, "stringify/mod.rs", "quoted static values go through escape_html_quote: %s" % okq))
     return obs
 
